@@ -6,6 +6,12 @@
   modelled (everything above it consists of plain directories).  `realpath` follows the links of the modelled tree
   (fuel-bounded, like the kernel's ELOOP limit).  The filter rules are those of tarfile._get_filtered_attrs (CPython 3.12):
   leading '/' stripped, resolved destination inside `dest`, no special files, link targets relative and resolving inside.
+  Before the filter, untar_file refuses any member name with a `..` component (the D29 fix).
+
+  WRITES.  Every site where the real code creates or replaces a file-system entry computes the PHYSICAL absolute path the
+  kernel would use (independently of what the filter vetted) and goes through `writeAt`: a path that is not strictly
+  below `dest` yields `Verdict.escaped` — the model then stops, it does not describe the world outside `dest` (where only
+  the ancestors of `dest` exist, as plain directories).  Props/C18.lean proves that `escaped` is unreachable.
 -/
 namespace Kapture.C18
 
@@ -69,7 +75,7 @@ def kresolve (dest : Path) (fs : FS) : Nat → Path → List String → Option P
         | some (Node.link t) =>
           if t.startsWith "/" then kresolve dest fs fuel [] (split t ++ rest) else kresolve dest fs fuel cur (split t ++ rest)
         | some Node.dir => kresolve dest fs fuel p rest
-        | some (Node.file _) => if rest.all (fun x => x == "" || x == ".") then some p else none
+        | some (Node.file _) => if rest.all (fun x => x == "" || x == ".") then kresolve dest fs fuel p rest else none
 
 inductive Verdict where
   | ok (fs : FS)
@@ -77,7 +83,8 @@ inductive Verdict where
   | osError (fs : FS) (why : String)   -- a fatal OSError / KeyError: extraction stops; directories already made stay
   | skipped (fs : FS)               -- a non-fatal ExtractError (unresolvable hard link): logged, extraction goes on
   | unmodelled                      -- hard-link fallbacks of tarfile that this model does not describe
-deriving Repr
+  | escaped (p : Path)              -- an entry would be created or replaced at `p`, which is not strictly below dest
+deriving Repr, DecidableEq
 
 def setNode (fs : FS) (p : Path) (n : Node) : FS :=
   if fs.any (fun e => e.1 == p) then fs.map (fun e => if e.1 == p then (p, n) else e) else fs ++ [(p, n)]
@@ -92,6 +99,22 @@ def rel (dest p : Path) : Path := p.drop dest.length
 def isDirAt (dest : Path) (fs : FS) (p : Path) : Bool :=
   if isPrefix dest p then lookup fs (rel dest p) == some Node.dir else isPrefix p dest
 
+/-- strictly below dest -/
+def strictInside (dest p : Path) : Bool := isPrefix dest p && decide (dest.length < p.length)
+
+/-- what stands at an absolute path: the modelled tree below dest, plain directories for the ancestors of dest, nothing
+  elsewhere -/
+def existsAbs (dest : Path) (fs : FS) (p : Path) : Option Node :=
+  if isPrefix dest p then lookup fs (rel dest p) else if isPrefix p dest then some Node.dir else none
+
+/-- create or replace the entry at the absolute path `q` -/
+def writeAt (dest : Path) (fs : FS) (q : Path) (n : Node) : Verdict :=
+  if strictInside dest q then Verdict.ok (setNode fs (rel dest q) n) else Verdict.escaped q
+
+inductive WalkErr where
+  | os (fs : FS) (why : String)
+  | escaped (p : Path)
+
 structure Walk where
   fs : FS
   cur : Path            -- resolved absolute path reached so far
@@ -100,24 +123,23 @@ structure Walk where
 /-- `os.makedirs(upperdirs)` as tarfile calls it (only when upperdirs does not exist), component by component on the
   LITERAL path: an existing directory (or link to one) is entered, a missing component is created, `..` after a created
   component is the FileExistsError of `mkdir('a/..')`, a file or a dangling link in the way is an error -/
-def walkStep (dest : Path) (w : Walk) (c : String) : Except (FS × String) Walk :=
+def walkStep (dest : Path) (w : Walk) (c : String) : Except WalkErr Walk :=
   if c == "" || c == "." then Except.ok w
   else if c == ".." then
-    if w.creating then Except.error (w.fs, "FileExistsError") else Except.ok { w with cur := w.cur.dropLast }
+    if w.creating then Except.error (WalkErr.os w.fs "FileExistsError") else Except.ok { w with cur := w.cur.dropLast }
   else
     let lit := w.cur ++ [c]
-    if !isPrefix dest lit then
-      -- above dest: only the ancestors of dest are known to exist
-      if isPrefix lit dest then Except.ok { w with cur := lit } else Except.error (w.fs, "FileNotFoundError")
-    else
-      match lookup w.fs (rel dest lit) with
-      | none => Except.ok { fs := setNode w.fs (rel dest lit) Node.dir, cur := lit, creating := true }
-      | some Node.dir => Except.ok { w with cur := lit }
-      | some (Node.file _) => Except.error (w.fs, "NotADirectoryError")
-      | some (Node.link _) =>
-        match kresolve dest w.fs FUEL w.cur [c] with
-        | some p => if isDirAt dest w.fs p then Except.ok { w with cur := p } else Except.error (w.fs, "NotADirectoryError")
-        | none => Except.error (w.fs, "FileExistsError")        -- dangling link: exists() is false, mkdir finds the link
+    match existsAbs dest w.fs lit with
+    | none =>
+      -- mkdir: the one place where directories are made on the way to a member
+      if strictInside dest lit then Except.ok { fs := setNode w.fs (rel dest lit) Node.dir, cur := lit, creating := true }
+      else Except.error (WalkErr.escaped lit)
+    | some Node.dir => Except.ok { w with cur := lit }
+    | some (Node.file _) => Except.error (WalkErr.os w.fs "NotADirectoryError")
+    | some (Node.link _) =>
+      match kresolve dest w.fs FUEL w.cur [c] with
+      | some p => if isDirAt dest w.fs p then Except.ok { w with cur := p } else Except.error (WalkErr.os w.fs "NotADirectoryError")
+      | none => Except.error (WalkErr.os w.fs "FileExistsError")        -- dangling link: exists() is false, mkdir finds the link
 
 /-- where `open(path, O_WRONLY|O_CREAT|O_TRUNC)` lands when the last component may be a symbolic link: the kernel resolves
   every component but the last strictly (each must exist), follows a link in last position, and creates the file in the
@@ -133,20 +155,77 @@ def kopen (dest : Path) (fs : FS) : Nat → Path → List String → Except Stri
       else if last == "" || last == "." || last == ".." then Except.error "IsADirectoryError"
       else
         let q := p ++ [last]
-        if !isPrefix dest q then Except.error "outside"
-        else match lookup fs (q.drop dest.length) with
-          | none => Except.ok q
+        match existsAbs dest fs q with
+          | none => Except.ok q                      -- O_CREAT: the file is created where the walk ended
           | some (Node.file _) => Except.ok q
           | some Node.dir => Except.error "IsADirectoryError"
           | some (Node.link t) => if t.startsWith "/" then kopen dest fs fuel [] (split t) else kopen dest fs fuel p (split t)
 
-def walkParent (dest : Path) (fs : FS) (comps : List String) : Except (FS × String) Walk :=
+def walkParent (dest : Path) (fs : FS) (comps : List String) : Except WalkErr Walk :=
   comps.foldlM (walkStep dest) { fs := fs, cur := dest, creating := false }
 
-/-- the `data` filter (tarfile._get_filtered_attrs) followed by TarFile._extract_member.
+/-- upperdirs of a member: entered when it exists (the kernel's walk succeeds), made by `os.makedirs` otherwise -/
+def walkUpper (dest : Path) (fs : FS) (dl : List String) : Except WalkErr Walk :=
+  match kresolve dest fs FUEL dest dl with
+  | some p => Except.ok { fs := fs, cur := p, creating := false }        -- upperdirs exists: nothing to make
+  | none => walkParent dest fs dl
+
+/-- the entry itself, `last` being the last component of the member's name and `cur` the directory reached for its parent -/
+def placeFinal (dest : Path) (fs : FS) (earlier : List Member) (m : Member) (cur : Path) (last : String) : Verdict :=
+  let literalDir := last == "" || last == "." || last == ".."
+  let here : Path := if last == "" || last == "." then cur else if last == ".." then cur.dropLast else cur ++ [last]
+  match m.kind with
+  | Kind.dir =>
+    match existsAbs dest fs here with
+    | none => writeAt dest fs here Node.dir
+    | some _ => Verdict.ok fs                       -- FileExistsError is ignored by makedir
+  | Kind.file =>
+    if literalDir then Verdict.osError fs "IsADirectoryError" else
+    match existsAbs dest fs here with
+    | some Node.dir => Verdict.osError fs "IsADirectoryError"
+    | some (Node.link _) =>
+      -- open(.., 'wb') follows the link the way the kernel does
+      match kopen dest fs FUEL cur [last] with
+      | Except.error why => Verdict.osError fs why
+      | Except.ok q => writeAt dest fs q (Node.file m.content)
+    | _ => writeAt dest fs here (Node.file m.content)
+  | Kind.sym =>
+    if literalDir then Verdict.osError fs "IsADirectoryError" else
+    match existsAbs dest fs here with
+    | some Node.dir => Verdict.osError fs "IsADirectoryError"
+    | _ => writeAt dest fs here (Node.link m.linkname)     -- an existing file or link is unlinked first
+  | Kind.hard =>
+    if literalDir then Verdict.osError fs "IsADirectoryError" else
+    let tgt := kresolve dest fs FUEL dest (split m.linkname)
+    let inArchive := earlier.any (fun e => e.name == m.linkname)
+    match tgt with
+    | some t =>
+      match (if isPrefix dest t then lookup fs (rel dest t) else none), existsAbs dest fs here with
+      | some (Node.file c), none => writeAt dest fs here (Node.file c)     -- os.link succeeds
+      | _, _ => Verdict.unmodelled
+    | none => if inArchive then Verdict.unmodelled else Verdict.osError fs "KeyError"   -- linkname not found
+  | Kind.special => Verdict.filterError "SpecialFileError"
+
+/-- TarFile._extract_member for a vetted member whose name splits into `comps`: make the missing parent directories
+  (os.makedirs on the literal path), then create the entry where the kernel's walk of the parent ended -/
+def placeMember (dest : Path) (fs : FS) (earlier : List Member) (m : Member) (comps : List String) : Verdict :=
+  match walkUpper dest fs comps.dropLast with
+  | Except.error (WalkErr.os fs' why) => Verdict.osError fs' why
+  | Except.error (WalkErr.escaped p) => Verdict.escaped p
+  | Except.ok w =>
+    -- upperdirs "exists" also when it is (a link to) a regular file: creating anything below it is ENOTDIR
+    if !isDirAt dest w.fs w.cur then Verdict.osError w.fs "NotADirectoryError"
+    else placeFinal dest w.fs earlier m w.cur (comps.getLast?.getD "")
+
+/-- untar_file's own guard (names with a `..` component are refused), then the `data` filter
+  (tarfile._get_filtered_attrs) followed by TarFile._extract_member (`placeMember`).
+  The guard of the code looks at the raw member name; the components of the name without its leading slashes are a
+  suffix of those (the dropped ones are empty), so the second test below never changes the answer: it is there because the
+  theorems are about the components that are walked.
   `earlier` = the members already seen (a hard link whose target is not on disk is extracted from the archive) -/
 def extractMember (dest : Path) (fs : FS) (earlier : List Member) (m : Member) : Verdict :=
   let name := stripSlashes m.name
+  if (split m.name).contains ".." || (split name).contains ".." then Verdict.filterError "OutsideDestinationError" else
   match realpath dest fs FUEL dest (split name) with
   | none => Verdict.osError fs "ELOOP"
   | some target =>
@@ -163,67 +242,34 @@ def extractMember (dest : Path) (fs : FS) (earlier : List Member) (m : Member) :
     match linkCheck with
     | some "ELOOP" => Verdict.osError fs "ELOOP"
     | some why => Verdict.filterError why
-    | none =>
-      let comps := split name
-      let last := comps.getLast?.getD ""
-      -- upperdirs: created only when it does not exist yet
-      let walked : Except (FS × String) Walk :=
-        match kresolve dest fs FUEL dest comps.dropLast with
-        | some p => Except.ok { fs := fs, cur := p, creating := false }        -- upperdirs exists: nothing to make
-        | none => walkParent dest fs comps.dropLast
-      match walked with
-      | Except.error e => Verdict.osError e.1 e.2
-      | Except.ok w =>
-        let fs := w.fs
-        if !isPrefix dest w.cur then Verdict.osError fs "outside" else
-        -- upperdirs "exists" also when it is (a link to) a regular file: creating anything below it is ENOTDIR
-        if !isDirAt dest fs w.cur then Verdict.osError fs "NotADirectoryError" else
-        let here : Path := if last == "" || last == "." then rel dest w.cur
-                           else if last == ".." then (rel dest w.cur).dropLast else rel dest w.cur ++ [last]
-        let literalDir := last == "" || last == "." || last == ".."
-        match m.kind with
-        | Kind.dir =>
-          match lookup fs here with
-          | none => Verdict.ok (setNode fs here Node.dir)
-          | some _ => Verdict.ok fs                       -- FileExistsError is ignored by makedir
-        | Kind.file =>
-          if literalDir then Verdict.osError fs "IsADirectoryError" else
-          match lookup fs here with
-          | some Node.dir => Verdict.osError fs "IsADirectoryError"
-          | some (Node.link _) =>
-            -- open(.., 'wb') follows the link the way the kernel does
-            match kopen dest fs FUEL w.cur [last] with
-            | Except.error why => Verdict.osError fs why
-            | Except.ok q => Verdict.ok (setNode fs (rel dest q) (Node.file m.content))
-          | _ => Verdict.ok (setNode fs here (Node.file m.content))
-        | Kind.sym =>
-          if literalDir then Verdict.osError fs "IsADirectoryError" else
-          match lookup fs here with
-          | some Node.dir => Verdict.osError fs "IsADirectoryError"
-          | _ => Verdict.ok (setNode fs here (Node.link m.linkname))
-        | Kind.hard =>
-          if literalDir then Verdict.osError fs "IsADirectoryError" else
-          let tgt := kresolve dest fs FUEL dest (split m.linkname)
-          let inArchive := earlier.any (fun e => e.name == m.linkname)
-          match tgt with
-          | some t =>
-            match (if isPrefix dest t then lookup fs (rel dest t) else none), lookup fs here with
-            | some (Node.file c), none => Verdict.ok (setNode fs here (Node.file c))     -- os.link succeeds
-            | _, _ => Verdict.unmodelled
-          | none => if inArchive then Verdict.unmodelled else Verdict.osError fs "KeyError"   -- linkname not found
-        | Kind.special => Verdict.filterError "SpecialFileError"
+    | none => placeMember dest fs earlier m (split name)
+
+/-- why an extraction stopped -/
+inductive Stop where
+  | filter (why : String)       -- tarfile.FilterError
+  | os (why : String)           -- a fatal OSError / KeyError
+  | unmodelled
+  | escaped (p : Path)          -- an entry would have been created at `p`, not strictly below dest
+deriving Repr, DecidableEq
+
+def Stop.name : Stop → String
+  | Stop.filter why => why
+  | Stop.os why => why
+  | Stop.unmodelled => "unmodelled"
+  | Stop.escaped _ => "escaped"
 
 /-- untar_file: members in archive order; the first fatal error stops the extraction -/
-def untarFrom (dest : Path) (fs : FS) (earlier : List Member) : List Member → FS × Option String
+def untarFrom (dest : Path) (fs : FS) (earlier : List Member) : List Member → FS × Option Stop
   | [] => (fs, none)
   | m :: ms =>
     match extractMember dest fs earlier m with
     | Verdict.ok fs' => untarFrom dest fs' (earlier ++ [m]) ms
     | Verdict.skipped fs' => untarFrom dest fs' (earlier ++ [m]) ms
-    | Verdict.filterError why => (fs, some why)
-    | Verdict.osError fs' why => (fs', some why)
-    | Verdict.unmodelled => (fs, some "unmodelled")
+    | Verdict.filterError why => (fs, some (Stop.filter why))
+    | Verdict.osError fs' why => (fs', some (Stop.os why))
+    | Verdict.unmodelled => (fs, some Stop.unmodelled)
+    | Verdict.escaped p => (fs, some (Stop.escaped p))
 
-def untar (dest : Path) (fs : FS) (ms : List Member) : FS × Option String := untarFrom dest fs [] ms
+def untar (dest : Path) (fs : FS) (ms : List Member) : FS × Option Stop := untarFrom dest fs [] ms
 
 end Kapture.C18
